@@ -197,6 +197,17 @@ pub fn max_total() -> usize {
     }
 }
 
+/// the size budget every program-based case lives in (stated in the evidence of each check that uses programs)
+pub fn budget_note() -> String {
+    format!(
+        "generated programs hold at most {} bytes of content ({} flavour): at most {} encryption chunks and {} compression blocks per archive; structural constants beyond that reach (2^8 / 2^16 chunks, repair buffer) are only exercised where a check has a directed stage for them (C05 cache-sized, C06 many-chunks, C11 long streams)",
+        max_total(),
+        FLAVOUR,
+        max_total().div_ceil(CHUNK) + 1,
+        max_total().div_ceil(BLOCK) + 1
+    )
+}
+
 pub fn make_name(class: NameClass, idx: usize, empty_taken: &mut bool) -> String {
     match class {
         NameClass::Ascii => format!("file_{idx}"),
@@ -702,6 +713,9 @@ pub fn build_partial(res: &Resolved, publics: &[PublicKey]) -> (Vec<u8>, Vec<usi
     (s.buf.clone(), s.flush_lens.clone(), models, err)
 }
 
+/// what a source still holds after the bytes announced for a piece (must never reach the archive or the hash)
+static AFTER_SOURCE: [u8; 300_000] = [0xEE; 300_000];
+
 fn run_ops<W: Write>(res: &Resolved, publics: &[PublicKey], sink: W, flush_models: &mut Vec<BTreeMap<String, usize>>) -> Result<(W, [u8; 32], [u8; 8]), String> {
     let cfg = writer_config_via(res.cfg_path, res.layers, res.level, publics);
     let sym_key = *cfg.encryption_key();
@@ -722,6 +736,11 @@ fn run_ops<W: Write>(res: &Resolved, publics: &[PublicKey], sink: W, flush_model
                 if *stream {
                     let mut sw = mla::helpers::StreamWriter::new(&mut w, id);
                     sw.write_all(&d).map_err(|e| format!("op {i} stream write: {e:?}"))?;
+                } else if *seed % 4 == 1 {
+                    // a source that goes on after the announced size (one stream feeding several pieces): only
+                    // `len` bytes of it belong to this piece
+                    w.append_file_content(id, *len as u64, d.as_slice().chain(&AFTER_SOURCE[..]))
+                        .map_err(|e| format!("op {i} append_file_content (source longer than announced): {e:?}"))?;
                 } else {
                     w.append_file_content(id, *len as u64, d.as_slice())
                         .map_err(|e| format!("op {i} append_file_content: {e:?}"))?;
@@ -734,8 +753,13 @@ fn run_ops<W: Write>(res: &Resolved, publics: &[PublicKey], sink: W, flush_model
             }
             ROp::Add { f, len, class, seed, overlay } => {
                 let d = piece_bytes(*class, *seed, *len, overlay);
-                w.add_file(&res.names[*f], *len as u64, d.as_slice())
-                    .map_err(|e| format!("op {i} add_file: {e:?}"))?;
+                if *seed % 4 == 1 {
+                    w.add_file(&res.names[*f], *len as u64, d.as_slice().chain(&AFTER_SOURCE[..]))
+                        .map_err(|e| format!("op {i} add_file (source longer than announced): {e:?}"))?;
+                } else {
+                    w.add_file(&res.names[*f], *len as u64, d.as_slice())
+                        .map_err(|e| format!("op {i} add_file: {e:?}"))?;
+                }
                 appended.insert(res.names[*f].clone(), *len);
             }
             ROp::Flush => {
